@@ -187,6 +187,16 @@ func init() {
 		store(T, dst, load(T, src))
 		return true
 	}
+	// proto.Clone (reflection-driven in gogoproto) = deep copy of the message
+	e["github.com/cosmos/gogoproto/proto.Clone"] = func(fr *frame, args []value) value {
+		x := args[0].(iface)
+		if x.t == nil {
+			return x
+		}
+		return iface{t: x.t, v: deepCopy(x.v, map[*value]*value{})}
+	}
+	e[verifPkg+".EncodeAny"] = e[verifPkg+".Encode"]
+	e[verifPkg+".DecodeAny"] = e[verifPkg+".Decode"]
 	e[verifPkg+".DecodeInterface"] = func(fr *frame, args []value) value {
 		en, ok := lookup(fr, args[0])
 		if !ok {
